@@ -86,6 +86,8 @@ def gen_spec(seed, index, tier):
                  through_gamma=rng.random() < 0.3, call=rng.choice(["dm_at_q", "freqs", "freqs_vecs", "gv_at_q", "dm_run"]),
                  segments=rng.choice([1, 1, 2, 2, 3]), join=rng.choice(["gamma", "point", "none"]),
                  tr=rng.random() < 0.75, gc=rng.random() < 0.75, qlayout=rng.choice(["list", "list", "array", "strided", "reversed", "fortran"]))
+        if t["kind"] in ("band", "write") and t["conn"] and rng.random() < 0.6:
+            t["gv"] = True  # connected bands carry their velocities along: keep that combination frequent
         tasks.append(t)
     order = [rng.randint(0, 99) for _ in range(60)]
     variant = "sim" if rng.random() < 0.55 else "serial"
